@@ -28,6 +28,12 @@ THOROUGH_TIMEOUT_MS = 120000
 
 
 # ------------------------------------------------------------------------------------------------
+def contracts_of(mod):
+    """CONTRACTS of a property module plus its late-bound ones (`extra_contracts()`: contracts borrowed from modules that
+    themselves import this one)."""
+    return list(mod.CONTRACTS) + (list(mod.extra_contracts()) if hasattr(mod, "extra_contracts") else [])
+
+
 def _job(args):
     prop, idx, tier = args
     import z3
@@ -35,7 +41,7 @@ def _job(args):
     from pyvc.solve import discharge, smt2_of
     from pyvc.repo import source_hash, FunctionNotFound
     mod = importlib.import_module(f"contracts.{prop}")
-    c = mod.CONTRACTS[idx]
+    c = contracts_of(mod)[idx]
     eng = Engine()
     out = dict(contract=c.name, file=c.file, func=c.func, lemma=c.is_lemma, obligations=[], undecided=[],
                error=None, paths=0, used=[], assumptions=list(c.assumptions), trusted=list(c.trusted),
@@ -197,7 +203,7 @@ def check(prop: str, tier: str) -> int:
     except ModuleNotFoundError:
         print(f"no contracts for {prop}")
         return 3
-    n = len(mod.CONTRACTS)
+    n = len(contracts_of(mod))
     jobs = [(prop, i, tier) for i in range(n)]
     from concurrent.futures import ProcessPoolExecutor
     with ProcessPoolExecutor(max_workers=min(16, max(1, n)), mp_context=mp.get_context("fork")) as ex:
@@ -405,7 +411,7 @@ def baseline():
         mod = importlib.import_module(f"contracts.{p}")
         from concurrent.futures import ProcessPoolExecutor
         with ProcessPoolExecutor(max_workers=16, mp_context=mp.get_context("fork")) as ex:
-            results = list(ex.map(_job, [(p, i, "quick") for i in range(len(mod.CONTRACTS))]))
+            results = list(ex.map(_job, [(p, i, "quick") for i in range(len(contracts_of(mod)))]))
         names = sorted({f"{r['contract']}/{o['name']}" for r in results for o in r["obligations"]
                         if o["kind"] != "canary"})
         out[p] = names
